@@ -717,6 +717,34 @@ func c06Check(ctx *vfCtx, c c06Case) {
 					ctx.Fail("C06/batch/verdict-differs-from-single/"+order, "alone the event gives %v, in a batch with an unsigned copy of itself %v; %s", kerrs[0], eventErr, detail)
 				}
 			}
+			// the same batch for a caller whose context has already ended: whatever is reported, it is
+			// one result per event and never "verified" for the copy that carries no signature
+			for _, order := range []string{"event-first", "bare-first"} {
+				batch := []PDU{pdu, bare}
+				bareAt := 1
+				if order == "bare-first" {
+					batch, bareAt = []PDU{bare, pdu}, 0
+				}
+				dead, cancel := context.WithCancel(c06Ctx())
+				cancel()
+				var errs []error
+				if vfCatch(ctx, "C06/batch-cancelled", func() {
+					errs = VerifyAllEventSignatures(dead, batch, KeyRing{KeyDatabase: c06NewDB(keys)}, vfUserIDForSender)
+				}) {
+					return
+				}
+				ctx.Class("batch-cancelled/" + order)
+				if len(errs) != 2 {
+					ctx.Fail("C06/batch-cancelled/verify-all-length", "with an ended context VerifyAllEventSignatures returned %d results for 2 events", len(errs))
+					break
+				}
+				if errs[bareAt] == nil {
+					ctx.Fail("C06/batch-cancelled/unsigned-copy-accepted/"+order, "with an ended context a copy without any signature is reported as verified; %s", detail)
+				}
+				if errs[1-bareAt] == nil && kerrs[0] != nil {
+					ctx.Fail("C06/batch-cancelled/accepted-what-fails-alone/"+order, "with an ended context the event is reported as verified although it fails alone with %v; %s", kerrs[0], detail)
+				}
+			}
 		}
 	}
 
@@ -799,7 +827,7 @@ var c06Servers = []string{"a.example", "b.example:8448", "c.example", "d.example
 var c06ExtraServers = []string{"evil.example", "z.example:8448", "a.example", "b.example:8448", "c.example", "d.example", "1.2.3.4"}
 
 func c06GenUser(t *rapid.T, label string) string {
-	return "@" + rapid.SampledFrom([]string{"alice", "bob", "carol"}).Draw(t, label+"Local") + ":" + rapid.SampledFrom(c06Servers).Draw(t, label+"Server")
+	return "@" + rapid.SampledFrom([]string{"alice", "bob", "carol", "alice", "bob", "carol", "t&j<1>"}).Draw(t, label+"Local") + ":" + rapid.SampledFrom(c06Servers).Draw(t, label+"Server")
 }
 
 func c06GenUserAway(t *rapid.T, label, server string) string {
@@ -947,11 +975,11 @@ func c06Gen(t *rapid.T) c06Case {
 				jobj("mxid", jstr(*c.StateKey), "token", jstr("tok"), "signatures", jobj("id.example", jobj("ed25519:0", jstr("AAAA"))))))
 		}
 	case "message":
-		c.Type = "m.room.message"
+		c.Type = rapid.SampledFrom([]string{"m.room.message", "m.room.message", "org.example.<&>", "m.room.encrypted"}).Draw(t, "messageType")
 		content = jobj("msgtype", jstr("m.text"), "body", jstr("hello"))
 	case "custom-state":
 		c.Type = "org.example.custom"
-		c.StateKey = str(rapid.SampledFrom([]string{"", "k", "@bob:d.example"}).Draw(t, "customKey"))
+		c.StateKey = str(rapid.SampledFrom([]string{"", "k", "@bob:d.example", "tom&jerry", "<b>", "a\u2028b\u2029"}).Draw(t, "customKey"))
 		content = jobj("x", jnum(1))
 	case "create":
 		c.Type = "m.room.create"
